@@ -22,6 +22,12 @@ CLAIMED["C05"] = dict(
   technique="bounded model checking by SMT-based symbolic execution of go/ssa + lockset obligation on symbolic paths",
   ref="4-C05")
 
+CLAIMED["C06"] = dict(
+  text="Bounded symbolic verification (SMT over go/ssa) with INDUCTIVE steps from arbitrary states: (1) bitmap.set / bitmap.get / Cache.Store each preserve 'bit k <=> packet first+k received, nothing ahead of the window received, window glued to the newest packet' from an arbitrary bitmap word and window position (stated for one Skolem seqno, which is the whole invariant because the code only shifts); get reports only not-received seqnos inside [first,next), every hole leaving the window, each at most once; (2) the reception counters: one arbitrary Store/Expect/GetStats from an arbitrary counter state keeps received<=expected (interval and total) and ESeqno monotone unless the stream jumps back by >256; (3) ToBitmap names exactly its list; (4) K-step BMC of Store + the readLoop NACK rule on a fresh cache (composition), one hole in a steady stream requested exactly once. Unbounded histories are covered by (1),(2); the solver decides all 2^16 window positions and 2^32 bitmap words.",
+  note="Bounds: inductive steps are unbounded in history but assume the stated invariants (glue: first<=last+1<=first+32 and no bit beyond last), counters < 2^30, cycle < 65535, forward jumps < 0x4000; BMC K=3 (quick) / 4 (thorough); ToBitmap lists <= 4/6. The NACK decision of readLoop (rtpreader.go) is mirrored in the harness, not executed from rtpconn; sendUpRTCP's loss-fraction arithmetic and nackWriter are not encoded (rtpconn needs pion stubs). Trusted: go/ssa, gosmt, z3/cvc5.",
+  technique="inductive-step and bounded model checking by SMT-based symbolic execution of go/ssa (z3/cvc5), counterexamples replayed natively",
+  ref="4-C06")
+
 NOT_APPLICABLE = {
 }
 
